@@ -5,7 +5,7 @@ PROPERTY = "C11"
 
 
 def tasks(tier):
-    return (contract_tasks("contracts.world_connect", "C11") + contract_tasks("contracts.groups", "C11", tier=tier) + lemma_tasks("contracts.groups", "C11")
+    return (contract_tasks("contracts.world_group", "C11") + contract_tasks("contracts.world_connect", "C11") + contract_tasks("contracts.groups", "C11", tier=tier) + lemma_tasks("contracts.groups", "C11")
             + contract_tasks("contracts.connect", "C11", tier=tier) + other_tasks("contracts.connect_bounded", "C11", "bounded")
             # (what is an input / output of a model: the attribute sets, served under C12)
             + contract_tasks("contracts.in_or_out_set", "C12"))
